@@ -269,3 +269,209 @@ pub mod tuple {
         }
     }
 }
+
+/// Read-only walk over everything the database file holds (C10 C11): page zero, the free list, every tree the
+/// catalog knows with its pages, sibling links and overflow chains.  Plain data, no judgement: the harness decides.
+pub mod audit {
+    use crate::{
+        Database,
+        schema::{base::{Relation, Schema}, meta_index_schema, meta_table_schema},
+        storage::{
+            BtreeMetadata, BtreeOps,
+            page::{BtreePage, OverflowPage},
+            tuple::Row,
+        },
+        types::PageId,
+    };
+    use std::collections::HashSet;
+
+    #[derive(Debug, Clone, Default)]
+    pub struct PageInfo {
+        pub id: u64,
+        pub leaf: bool,
+        pub slots: usize,
+        pub children: Vec<u64>,
+        pub next: Option<u64>,
+        pub prev: Option<u64>,
+        /// (slot, first overflow page) of every cell that continues in an overflow chain
+        pub overflow_heads: Vec<(usize, u64)>,
+        pub free_space: u32,
+        pub used_bytes: usize,
+        pub depth: usize,
+    }
+
+    #[derive(Debug, Clone, Default)]
+    pub struct TreeInfo {
+        pub object_id: u64,
+        pub name: String,
+        pub root: u64,
+        pub pages: Vec<PageInfo>,
+        /// every overflow chain reachable from the tree: (head, pages of the chain)
+        pub chains: Vec<(u64, Vec<u64>)>,
+        /// leaf cells (without overflow) whose newest version does not decode under the relation's schema: (page, slot, error)
+        pub undecodable: Vec<(u64, usize, String)>,
+        pub cells: usize,
+        /// column types of the schema the catalog holds for the tree (keys first)
+        pub columns: Vec<String>,
+        pub errors: Vec<String>,
+    }
+
+    #[derive(Debug, Clone, Default)]
+    pub struct Audit {
+        pub total_pages: u64,
+        pub page_size: usize,
+        pub first_free: Option<u64>,
+        pub last_free: Option<u64>,
+        pub free_list: Vec<u64>,
+        pub trees: Vec<TreeInfo>,
+        pub errors: Vec<String>,
+    }
+
+    fn walk_chain(db: &Database, head: PageId, limit: u64) -> Result<Vec<u64>, String> {
+        let mut out = Vec::new();
+        let mut seen = HashSet::new();
+        let mut cur = Some(head);
+        while let Some(id) = cur {
+            if id == 0 || id >= limit {
+                return Err(format!("chain from {head} reaches page {id} outside the file ({limit} pages)"));
+            }
+            if !seen.insert(id) {
+                return Err(format!("chain from {head} loops at page {id}"));
+            }
+            out.push(id);
+            cur = db
+                .pager
+                .write()
+                .with_page::<OverflowPage, _, _>(id, |p| p.next())
+                .map_err(|e| format!("chain from {head}: page {id}: {e}"))?;
+        }
+        Ok(out)
+    }
+
+    fn walk_tree(db: &Database, object_id: u64, name: &str, root: PageId, limit: u64, schema: &Schema) -> TreeInfo {
+        let mut t = TreeInfo { object_id, name: name.to_string(), root, ..Default::default() };
+        t.columns = schema.columns().iter().map(|c| format!("{}:{:?}", c.name(), c.datatype())).collect();
+        let mut stack = vec![(root, 0usize)];
+        let mut seen = HashSet::new();
+        let mut heads = Vec::new();
+        while let Some((id, depth)) = stack.pop() {
+            if id == 0 || id >= limit {
+                t.errors.push(format!("page {id} outside the file ({limit} pages)"));
+                continue;
+            }
+            if !seen.insert(id) {
+                t.errors.push(format!("page {id} reached twice inside the tree"));
+                continue;
+            }
+            let decoded = db.pager.write().with_page::<BtreePage, _, _>(id, |p| {
+                let mut bad = Vec::new();
+                let mut n = 0;
+                if p.is_leaf() {
+                    for i in 0..p.num_slots() {
+                        let c = p.cell(i);
+                        n += 1;
+                        if c.is_overflow() {
+                            continue;
+                        }
+                        if let Err(e) = Row::from_bytes_checked(c.effective_data(), schema) {
+                            bad.push((id, i, e.to_string()));
+                        }
+                    }
+                }
+                (n, bad)
+            });
+            if let Ok((n, bad)) = decoded {
+                t.cells += n;
+                t.undecodable.extend(bad);
+            }
+            let info = db.pager.write().with_page::<BtreePage, _, _>(id, |p| PageInfo {
+                id,
+                leaf: p.is_leaf(),
+                slots: p.num_slots(),
+                children: p.iter_children().collect(),
+                next: p.metadata().next_sibling(),
+                prev: p.metadata().prev_sibling(),
+                overflow_heads: (0..p.num_slots()).filter_map(|i| p.cell(i).overflow_page().map(|o| (i, o))).collect(),
+                free_space: p.metadata().free_space(),
+                used_bytes: p.used_bytes(),
+                depth,
+            });
+            match info {
+                Ok(info) => {
+                    for c in info.children.iter().rev() {
+                        stack.push((*c, depth + 1));
+                    }
+                    for (_, h) in &info.overflow_heads {
+                        heads.push(*h);
+                    }
+                    t.pages.push(info);
+                }
+                Err(e) => t.errors.push(format!("page {id}: {e}")),
+            }
+        }
+        heads.sort_unstable();
+        heads.dedup();
+        for h in heads {
+            match walk_chain(db, h, limit) {
+                Ok(c) => t.chains.push((h, c)),
+                Err(e) => t.errors.push(e),
+            }
+        }
+        t
+    }
+
+    /// Walks page zero, the free list, the meta table, the meta index and every relation stored in the meta table
+    /// (newest version of every catalog row, whatever its visibility).
+    pub fn audit(db: &Database) -> Audit {
+        let mut a = Audit::default();
+        {
+            let pager = db.pager.read();
+            let h = pager.header_unchecked();
+            a.total_pages = h.total_pages;
+            a.first_free = h.first_free_page;
+            a.last_free = h.last_free_page;
+            a.page_size = pager.page_size();
+        }
+        if let Some(first) = a.first_free {
+            match walk_chain(db, first, a.total_pages) {
+                Ok(c) => a.free_list = c,
+                Err(e) => a.errors.push(format!("free list: {e}")),
+            }
+        }
+        let (meta_table, meta_index) = db.catalog.verif_roots();
+        a.trees.push(walk_tree(db, 0, "<meta table>", meta_table, a.total_pages, &meta_table_schema()));
+        a.trees.push(walk_tree(db, 0, "<meta index>", meta_index, a.total_pages, &meta_index_schema()));
+
+        // every relation the meta table stores
+        let schema = meta_table_schema();
+        let builder = {
+            let pager = db.pager.read();
+            crate::io::pager::BtreeBuilder::new(pager.min_keys_per_page(), pager.num_siblings_per_side())
+                .with_pager(db.pager.clone())
+        };
+        let mut tree = builder.build_tree(meta_table);
+        let mut relations = Vec::new();
+        match tree.iter_forward() {
+            Ok(iter) => {
+                for pos in iter {
+                    let Ok(pos) = pos else { a.errors.push("meta table: iterator error".into()); break };
+                    let row = tree.with_cell_at(pos, |bytes| Row::from_bytes_checked(bytes, &schema));
+                    match row {
+                        Ok(Ok(row)) => {
+                            let r = Relation::from_meta_table_row(row);
+                            relations.push((r.object_id(), r.name().to_string(), r.root(), r.schema().clone()));
+                        }
+                        Ok(Err(e)) => a.errors.push(format!("meta table row: {e}")),
+                        Err(e) => a.errors.push(format!("meta table cell: {e}")),
+                    }
+                }
+            }
+            Err(e) => a.errors.push(format!("meta table: {e}")),
+        }
+        drop(tree);
+        for (oid, name, root, schema) in relations {
+            a.trees.push(walk_tree(db, oid, &name, root, a.total_pages, &schema));
+        }
+        a
+    }
+}
